@@ -533,11 +533,16 @@ func quotingHelper(info *types.Info, g *refGraph, fn *types.Func) bool {
 // another character, or half of one. In Regexp's call tree every conversion of a rune-typed value to a byte is under
 // a test that the value is below utf8.RuneSelf (c < 128, c <= 127, or the failing branch of c >= 128 / c > 127).
 func checkRuneNarrowing(p *Prog, r *Result, rule string) {
-	pkg := p.Pkg("pattern")
+	checkRuneNarrowingIn(p, r, "pattern", "Regexp", rule, "a non-ASCII character of the pattern is written as one stray byte — the expression matches another character, or is not valid UTF-8 and does not compile")
+}
+
+// checkRuneNarrowingIn: in the call tree of rel.root, byte(r) of a rune variable only where r is known to be ASCII.
+func checkRuneNarrowingIn(p *Prog, r *Result, rel, root, rule, consequence string) {
+	pkg := p.Pkg(rel)
 	info := pkg.TypesInfo
-	regexpFn := lookupFunc(pkg, "Regexp")
+	regexpFn := lookupFunc(pkg, root)
 	if regexpFn == nil {
-		r.Fatalf("anchor pattern.Regexp not found")
+		r.Fatalf("anchor %s.%s not found", rel, root)
 		return
 	}
 	g := buildRefGraph(p)
@@ -576,7 +581,7 @@ func checkRuneNarrowing(p *Prog, r *Result, rule string) {
 			}
 			id, ok := ast.Unparen(c.Args[0]).(*ast.Ident)
 			n++
-			key := fmt.Sprintf("%s#%s", funcKey("pattern", fd), exprString(c))
+			key := fmt.Sprintf("%s#%s", funcKey(rel, fd), exprString(c))
 			seen[key]++
 			if seen[key] > 1 {
 				key += fmt.Sprintf("#%d", seen[key])
@@ -621,11 +626,11 @@ func checkRuneNarrowing(p *Prog, r *Result, rule string) {
 				return false
 			})
 			r.Check(under, rule, key, c.Pos(), id.Name+" is known to be below utf8.RuneSelf on every path to the conversion",
-				fmt.Sprintf("the rune %s is narrowed to a byte on a path where it may be at or above utf8.RuneSelf: a non-ASCII character of the pattern is written as one stray byte — the expression matches another character, or is not valid UTF-8 and does not compile", id.Name))
+				fmt.Sprintf("the rune %s is narrowed to a byte on a path where it may be at or above utf8.RuneSelf: %s", id.Name, consequence))
 			return true
 		})
 	}
 	if n == 0 {
-		r.Notef("%s: no rune is narrowed to a byte in Regexp's call tree on this tree", rule)
+		r.Notef("%s: no rune is narrowed to a byte in %s.%s's call tree on this tree", rule, rel, root)
 	}
 }
